@@ -651,6 +651,9 @@ MUTATORS = ["set_value", "set_cell", "set_row", "insert_row", "append_row", "del
 WEIGHTS = [5, 6, 6, 4, 2, 4, 4, 3, 4, 4, 1, 4, 3, 3, 2, 2, 1]
 
 
+_LAST_CELL = None
+
+
 def gen_op(rng, g: Grid) -> dict:
     W, H = g.ncols, len(g.rows)
     k = rng.choices(MUTATORS, WEIGHTS)[0]
@@ -659,10 +662,18 @@ def gen_op(rng, g: Grid) -> dict:
     rep = rng.choice(REPS)
     if k == "set_value":
         return {"op": k, "x": x, "y": y, "cell": gen_payload(rng)}
-    if k in ("set_cell", "insert_cell"):
-        return {"op": k, "x": x, "y": y, "cell": gen_payload(rng), "rep": rep}
-    if k == "append_cell":
-        return {"op": k, "y": y, "cell": gen_payload(rng), "rep": rep}
+    if k in ("set_cell", "insert_cell", "append_cell"):
+        # often the very cell (payload, repeat) of the previous cell operation again: with argument objects pooled (POOL) the caller
+        # then hands over the SAME Cell object to two successive calls
+        global _LAST_CELL
+        if _LAST_CELL is not None and rng.random() < 0.4:
+            cell, rep = _LAST_CELL
+        else:
+            cell = gen_payload(rng)
+        _LAST_CELL = (cell, rep)
+        if k == "append_cell":
+            return {"op": k, "y": y, "cell": cell, "rep": rep}
+        return {"op": k, "x": x, "y": y, "cell": cell, "rep": rep}
     if k in ("set_row", "insert_row", "append_row"):
         cells = expand_line(gen_line(rng, 3))
         return {"op": k, "y": y, "cells": cells, "rep": rep}
@@ -730,6 +741,8 @@ def observe_fresh(t):
 
 def gen_history(rng, max_ops=8, reads=True):
     """initial RLE + a list of ops generated against the evolving reference grid"""
+    global _LAST_CELL
+    _LAST_CELL = None
     cols, rows = gen_rle(rng)
     how = rng.choice(["xml", "xml", "api"])
     g = grid_from_rle(cols, rows)
